@@ -185,7 +185,7 @@ func C18(ctx *core.Ctx) {
 	ctx.Rule("C18.R1", "side consistency (two-colour dataflow): comparisons, paired parameters, model methods, presence tests", 25)
 	ctx.Rule("C18.R2", "every error-producing test in a hit/miss region is evaluated on every path through the region", 8)
 	ctx.Rule("C18.R3", "declaration-kind exhaustiveness; checkType recursion and warn flags", 10)
-	ctx.Rule("C18.R4", "Audit fails iff errors were logged; CLI passes (audit file, argument) as (old, new)", 2)
+	ctx.Rule("C18.R4", "Audit fails iff errors were logged (an error once logged stays logged: every store to the flag behind ErrorsLogged() stores true, LogError stores it on every path); CLI passes (audit file, argument) as (old, new)", 2)
 	res := cc.Resolver()
 	audit := cc.Fn("C18.R1", "parser", "(*Auditor).Audit")
 	if audit == nil {
@@ -699,6 +699,86 @@ func C18(ctx *core.Ctx) {
 		}
 	}
 
+	// ---- R4: the verdict is sticky ------------------------------------------------------------
+	// Audit fails iff the logger says an error was logged. For every implementation of the
+	// logger in the package: LogError makes ErrorsLogged() true and nothing makes it false
+	// again — every store to a boolean field that ErrorsLogged returns stores the constant
+	// true (a flag assigned `label == errorLabel` forgets an error when a warning follows).
+	{
+		pp := cc.Pkg("parser")
+		n := 0
+		seenStore := map[ssa.Instruction]bool{}
+		for _, el := range cc.Fns {
+			if el.Pkg != pp || el.Name() != "ErrorsLogged" || el.Signature.Recv() == nil || len(el.Blocks) == 0 {
+				continue
+			}
+			// the flag: a bool field of the receiver returned by ErrorsLogged
+			flag := ""
+			for _, vs := range ReturnedValues(el) {
+				if len(vs) == 1 {
+					if f := fieldNameOfValue(vs[0]); f != "" {
+						flag = f
+					}
+				}
+			}
+			if flag == "" {
+				continue // a counting / derived implementation (e.g. len(errors) > 0): nothing to forget
+			}
+			recvT := el.Signature.Recv().Type()
+			var logErr *ssa.Function
+			for _, fn := range cc.Fns {
+				if fn.Pkg != pp || fn.Signature.Recv() == nil || !types.Identical(fn.Signature.Recv().Type(), recvT) && !sameNamed(fn.Signature.Recv().Type(), recvT) {
+					continue
+				}
+				if fn.Name() == "LogError" {
+					logErr = fn
+				}
+				for _, g := range localCone(fn, 1) {
+					if g != fn && (g.Signature.Recv() == nil || !sameNamed(g.Signature.Recv().Type(), recvT)) {
+						continue
+					}
+					ssax.Instrs(g, func(in ssa.Instruction) {
+						st, ok := in.(*ssa.Store)
+						if !ok || fieldNameOfAddr(st.Addr) != flag || seenStore[in] {
+							return
+						}
+						seenStore[in] = true
+						n++
+						k, isK := ssax.Strip(st.Val).(*ssa.Const)
+						isTrue := isK && k.Value != nil && k.Value.String() == "true"
+						ctx.Check(isTrue, "C18.R4", QName(g)+sprintf(" › store #%d to %s keeps an earlier error", n, flag), cc.IPos(in), "stores the constant true",
+							"the flag is assigned a computed value: a message logged after a breaking change (a warning, say) clears it, Audit returns nil and the CLI exits 0 although a breaking change was reported")
+					})
+				}
+			}
+			if logErr != nil {
+				sets := func(in ssa.Instruction) bool {
+					if st, ok := in.(*ssa.Store); ok && fieldNameOfAddr(st.Addr) == flag {
+						return true
+					}
+					if c, ok := in.(*ssa.Call); ok {
+						if g := c.Call.StaticCallee(); g != nil && g.Pkg == pp {
+							hit := false
+							ssax.Instrs(g, func(x ssa.Instruction) {
+								if st, ok := x.(*ssa.Store); ok && fieldNameOfAddr(st.Addr) == flag {
+									hit = true
+								}
+							})
+							return hit
+						}
+					}
+					return false
+				}
+				first := logErr.Blocks[0].Instrs[0]
+				ok := sets(first) || ssax.PathFrom(logErr, first, ssax.IsReturn, sets) == nil
+				ctx.Check(ok, "C18.R4", QName(logErr)+" › records the error on every path", cc.FPos(logErr), "the flag is stored on every path through LogError", "LogError can return without recording that an error was logged: Audit passes a breaking change")
+			}
+		}
+		if n == 0 {
+			ctx.Discharge("C18.R4", "parser › no boolean error flag", "", "no logger of the package keeps its verdict in a boolean field")
+		}
+	}
+
 	// ---- R3 ----------------------------------------------------------------------------------
 	wire := []string{"Scopes", "Enums", "Structs", "Exceptions", "Unions", "Services", "Namespaces", "Constants"}
 	for _, fld := range wire {
@@ -861,4 +941,15 @@ func flagVar(cc *CC, v ssa.Value) string {
 		}
 	}
 	return name
+}
+
+// sameNamed: the two receiver types are the same named type up to pointer-ness.
+func sameNamed(a, b types.Type) bool {
+	d := func(t types.Type) types.Type {
+		if p, ok := t.(*types.Pointer); ok {
+			return p.Elem()
+		}
+		return t
+	}
+	return types.Identical(d(a), d(b))
 }
